@@ -44,7 +44,7 @@ EX_ASSUME = ["objdump's x86-64 decoder, the lifter and the x86rt machine model a
 PROPS = {
     "C02": {
         "level": "model_checking",
-        "units": [JitSmtUnit(["point"])],
+        "units": [JitSmtUnit(["point", "fslice"])],
     },
     "C15": {
         "level": "translation_validation",
